@@ -37,6 +37,10 @@ U.block("src/buf/buf_impl.rs", "trait Buf", spec_items=BUF_SPEC, fns={
     "chunk": Fn(ret="r", spec="requires self.wf(),\nensures r@.is_prefix_of(self.seq()), (r@.len() == 0 <==> self.seq().len() == 0),"),
     "advance": Fn(spec="requires (*old(self)).wf(), cnt <= (*old(self)).seq().len(),\nensures " + ADV_ENS),
     "has_remaining": Fn(ret="r", spec="requires self.wf(),\nensures r == (self.seq().len() > 0),"),
+    "copy_to_slice": Fn(spec="""requires (*old(self)).wf(), (*old(self)).seq().len() >= old(dst)@.len(),
+ensures (*final(self)).wf(), final(dst)@ == (*old(self)).seq().take(old(dst)@.len() as int),
+    (*final(self)).seq() == (*old(self)).seq().skip(old(dst)@.len() as int),""",
+        mode="external_body", note="body is `try_copy_to_slice(dst).unwrap_or_else(|e| panic_advance(&e))`: the closure cannot be given a Verus contract without editing exec code; proved by Kani kx_default_copy_to_slice (and on the slow path of every kx_get_*)"),
     "get_u8": Fn(ret="r", spec="requires (*old(self)).wf(), (*old(self)).seq().len() >= 1,\nensures r == (*old(self)).seq()[0], (*final(self)).wf(), (*final(self)).seq() == (*old(self)).seq().skip(1),"),
     "get_i8": Fn(ret="r", spec="requires (*old(self)).wf(), (*old(self)).seq().len() >= 1,\nensures r == (*old(self)).seq()[0] as i8, (*final(self)).wf(), (*final(self)).seq() == (*old(self)).seq().skip(1),"),
     "try_get_u8": Fn(ret="r", spec="""requires (*old(self)).wf(),
@@ -159,3 +163,100 @@ closed spec fn wf(&self) -> bool {
 }""")]),
 })
 
+
+# ---- IntoIter -------------------------------------------------------------------------------
+U.struct("src/buf/iter.rs", "struct IntoIter<T>")
+U.block("src/buf/iter.rs", "impl<T> IntoIter<T>", spec_items=r"""
+pub closed spec fn spec_inner(&self) -> T { self.inner }
+""", fns={
+    "new": Fn(ret="r", spec="ensures r.spec_inner() == inner,"),
+    "into_inner": Fn(ret="r", spec="ensures r == self.spec_inner(),"),
+    "get_ref": Fn(ret="r", spec="ensures *r == self.spec_inner(),"),
+})
+U.block("src/buf/iter.rs", "impl<T: Buf> Iterator for IntoIter<T>", emit_header="impl<T: Buf> IntoIter<T>", fns={
+    "next": Fn(ret="r", spec="""requires (*old(self)).spec_inner().wf(),
+ensures (*final(self)).spec_inner().wf(),
+    (*old(self)).spec_inner().seq().len() == 0 ==> r == None::<u8> && (*final(self)).spec_inner().seq() == (*old(self)).spec_inner().seq(),
+    (*old(self)).spec_inner().seq().len() > 0 ==> r == Some((*old(self)).spec_inner().seq()[0])
+        && (*final(self)).spec_inner().seq() == (*old(self)).spec_inner().seq().skip(1),"""),
+    "size_hint": Fn(ret="r", spec="requires self.spec_inner().wf(),\nensures r.0 == self.spec_inner().seq().len(), r.1 == Some(r.0),"),
+})
+
+# ---- io::Cursor<T> ----------------------------------------------------------------------------
+U.text(r"""
+// std::io::Cursor as an external type with assumed accessor contracts
+#[verifier::external_type_specification]
+#[verifier::external_body]
+#[verifier::accept_recursive_types(T)]
+pub struct ExCursor<T>(std::io::Cursor<T>);
+
+pub uninterp spec fn cur_pos<T>(c: &std::io::Cursor<T>) -> u64;
+pub uninterp spec fn cur_inner<T>(c: &std::io::Cursor<T>) -> T;
+
+pub assume_specification<T> [std::io::Cursor::<T>::position] (c: &std::io::Cursor<T>) -> (r: u64)
+    ensures r == cur_pos(c);
+pub assume_specification<T> [std::io::Cursor::<T>::get_ref] (c: &std::io::Cursor<T>) -> (r: &T)
+    ensures *r == cur_inner(c);
+pub assume_specification<T> [std::io::Cursor::<T>::set_position] (c: &mut std::io::Cursor<T>, pos: u64)
+    ensures cur_pos(final(c)) == pos, cur_inner(final(c)) == cur_inner(old(c));
+
+// abstract representative of `T: AsRef<[u8]>` with a pure as_ref (impure impls are C17's subject)
+#[verifier::external_body]
+pub struct AbsT { p: *const u8 }
+pub uninterp spec fn as_ref_view(t: &AbsT) -> Seq<u8>;
+impl AbsT {
+    #[verifier::external_body]
+    fn as_ref(&self) -> (r: &[u8]) ensures r@ == as_ref_view(self) { unimplemented!() }
+}
+""")
+U.free_fn("src/lib.rs", "saturating_sub_usize_u64", Fn(ret="r", spec="ensures r == (if a as int - b as int > 0 { a as int - b as int } else { 0 }),"))
+U.free_fn("src/lib.rs", "min_u64_usize", Fn(ret="r", spec="ensures r == (if (a as int) < (b as int) { a as int } else { b as int }),"))
+U.block("src/buf/buf_impl.rs", "impl<T: AsRef<[u8]>> Buf for std::io::Cursor<T>",
+        emit_header="impl Buf for std::io::Cursor<AbsT>", spec_items=r"""
+// the bytes from the cursor position to the end of the underlying slice (nothing if beyond)
+closed spec fn seq(&self) -> Seq<u8> {
+    let s = as_ref_view(&cur_inner(self));
+    if cur_pos(self) as int >= s.len() { Seq::empty() } else { s.skip(cur_pos(self) as int) }
+}
+closed spec fn wf(&self) -> bool { true }
+""", fns={
+    "remaining": Fn(ret="r"),
+    "chunk": Fn(ret="r"),
+    "advance": Fn(spec="ensures cur_inner(&*final(self)) == cur_inner(&*old(self)),",
+                  hints=[("body_end", "", """proof {
+    let s = as_ref_view(&cur_inner(&*old(self)));
+    if cnt > 0 { assert(self.seq() =~= (*old(self)).seq().skip(cnt as int)); }
+    else { assert((*old(self)).seq().skip(0) =~= (*old(self)).seq()); }
+}""")]),
+})
+
+# ---- Reader<B> --------------------------------------------------------------------------------
+U.text(r"""
+#[verifier::external_type_specification]
+#[verifier::external_body]
+pub struct ExIoError(std::io::Error);
+mod io { pub use std::io::Result; }
+""")
+U.struct("src/buf/reader.rs", "struct Reader<B>")
+U.text("impl<B> Reader<B> { pub closed spec fn spec_buf(&self) -> B { self.buf } }")
+U.free_fn("src/buf/reader.rs", "new", Fn(ret="r", spec="ensures r.spec_buf() == buf,"), wrap_mod="reader")
+U.block("src/buf/reader.rs", "impl<B: Buf> Reader<B>", fns={
+    "get_ref": Fn(ret="r", spec="ensures *r == self.spec_buf(),"),
+    "into_inner": Fn(ret="r", spec="ensures r == self.spec_buf(),"),
+})
+U.block("src/buf/reader.rs", "impl<B: Buf + Sized> io::Read for Reader<B>", emit_header="impl<B: Buf + Sized> Reader<B>", fns={
+    "read": Fn(ret="r", spec="""requires (*old(self)).spec_buf().wf(),
+ensures (*final(self)).spec_buf().wf(),
+    // transfers min(available, requested) bytes and never fails
+    r == Ok::<usize, std::io::Error>(min_int((*old(self)).spec_buf().seq().len() as int, old(dst)@.len() as int) as usize),
+    ({ let n = min_int((*old(self)).spec_buf().seq().len() as int, old(dst)@.len() as int);
+       final(dst)@ == (*old(self)).spec_buf().seq().take(n) + old(dst)@.skip(n)
+       && (*final(self)).spec_buf().seq() == (*old(self)).spec_buf().seq().skip(n) }),"""),
+})
+U.block("src/buf/reader.rs", "impl<B: Buf + Sized> io::BufRead for Reader<B>", emit_header="impl<B: Buf + Sized> Reader<B>", fns={
+    "fill_buf": Fn(ret="r", spec="""requires (*old(self)).spec_buf().wf(),
+ensures r is Ok, r->Ok_0@.is_prefix_of((*old(self)).spec_buf().seq()),
+    (r->Ok_0@.len() == 0 <==> (*old(self)).spec_buf().seq().len() == 0),"""),
+    "consume": Fn(spec="""requires (*old(self)).spec_buf().wf(), amt <= (*old(self)).spec_buf().seq().len(),
+ensures (*final(self)).spec_buf().wf(), (*final(self)).spec_buf().seq() == (*old(self)).spec_buf().seq().skip(amt as int),"""),
+})
